@@ -732,6 +732,21 @@ theorem C15_gen_step_from_translated {s : State} (h : Inv s) (F x : Name) (force
     unfold viaFolder
     by_cases hgd : folderGuard s F = true <;> simp [hgd]
 
+/-- The two routes of `Folder._init_request_manager`, generated the same way: `["folder",F,"delete",x]` is the model's continuation
+(`remove_file_by_name`, translated, then `from_bool`), and the guard of `["folder",F,"file",x,…]` is the model's `fileGuard`. -/
+theorem C15_gen_folder_routes (g : Folder) (x : Name) :
+    some (folderRouteDelete g x) = (let (g', b) := g.removeFileByName x; some (g', ofBool b)) ∧
+    folderRouteFileGuard g x = g.fileGuard x ∧
+    (∀ v, (!folderRouteFileGuard g x) = true → g.fileRequest x v = (g, .failure)) := by
+  refine ⟨?_, (C15_gen_validators init g "" x).2.2.1, ?_⟩
+  · unfold folderRouteDelete
+    rw [(C15_gen_lookups init g { id := 0, name := "" } x false).2.2.1]
+  · intro v hv
+    have hg : folderRouteFileGuard g x = g.fileGuard x := (C15_gen_validators init g "" x).2.2.1
+    rw [hg] at hv
+    unfold Folder.fileRequest
+    simp [hv]
+
 /-! ### the report -/
 
 /-- **`describe_state` of `FileSystem` and of `Folder` as translated are the model's `describe`**: one `folders` entry per live folder
